@@ -40,6 +40,9 @@ AllCalls ==
   \cup {<<"set_oper", 2, Op("2", MirrorX, <<1, 1, 1>>)>>, <<"set_oper", 1, Op("3", IdMat, <<0, 0, 9>>)>>}
   \cup {<<"drop", c>> : c \in Cats} \cup {<<"restore", c>> : c \in Cats}
 
+\* the constant part of the file, for the driver that builds the real object
+ASSUME PrintT(<<"CONSTFILE", [atoms |-> Atoms3, coord |-> Coord3, bonds |-> Bonds3, asms |-> Asms3]>>)
+
 Init == /\ gens = Gens0 /\ opers = Opers0 /\ missing = {}
         /\ res = NoResult /\ strict = TRUE /\ n = 0
 Call(c) ==
